@@ -61,16 +61,16 @@ type sTask struct {
 type window struct{ from, to uint64 } // (Wait-return tick, next Start-call tick) of one pool
 
 type stressResult struct {
-	Cfg       stressCfg `json:"cfg"`
-	Outcomes  []outcome `json:"outcomes"`
-	Findings  []finding `json:"-"`
-	Rejected  int64     `json:"submits_seen_not_running"`
-	Submitted int64     `json:"submit_calls"`
-	Overlap   bool      `json:"submit_overlapped_shutdown"`
-	Hits      [3]int64  `json:"yield_hits"`
-	Stuck     string    `json:"stuck,omitempty"`
-	GrpWaits  int64     `json:"group_waits_returned"`
-	AllBusyAtShutdown bool `json:"all_workers_busy_when_shutdown_was_called"`
+	Cfg               stressCfg `json:"cfg"`
+	Outcomes          []outcome `json:"outcomes"`
+	Findings          []finding `json:"-"`
+	Rejected          int64     `json:"submits_seen_not_running"`
+	Submitted         int64     `json:"submit_calls"`
+	Overlap           bool      `json:"submit_overlapped_shutdown"`
+	Hits              [3]int64  `json:"yield_hits"`
+	Stuck             string    `json:"stuck,omitempty"`
+	GrpWaits          int64     `json:"group_waits_returned"`
+	AllBusyAtShutdown bool      `json:"all_workers_busy_when_shutdown_was_called"`
 }
 
 type spool struct {
